@@ -21,3 +21,66 @@ def taylor (bound : Nat) (cmp x : Rat) : Bool := taylorAux bound cmp x x 1 1
 #eval taylor 1000 (1/(1 - 945/1000)) (29957/10000) -- q=18.18, e^2.9957=20 → should be true, code says false
 
 end Lottery
+
+/-! ## `is_lottery_won` (num-integer backend) -/
+namespace Lottery
+
+/-- exact value of an IEEE-754 binary64 bit pattern; `none` for NaN / infinities -/
+def f64ToRat (bits : Nat) : Option Rat :=
+  let sign : Nat := bits / 2 ^ 63 % 2
+  let e : Nat := bits / 2 ^ 52 % 2048
+  let m : Nat := bits % 2 ^ 52
+  if e = 2047 then none
+  else
+    let num : Nat := if e = 0 then m else if e ≥ 1075 then (2 ^ 52 + m) * 2 ^ (e - 1075) else 2 ^ 52 + m
+    let den : Nat := if e = 0 then 2 ^ 1074 else if e ≥ 1075 then 1 else 2 ^ (1075 - e)
+    let mag : Rat := (num : Rat) / (den : Rat)
+    some (if sign = 1 then -mag else mag)
+
+def evMax : Nat := 2 ^ 512
+
+/-- early exit `(phi_f - 1.0).abs() < f64::EPSILON`; the float subtraction is exact on [1/2, 2]
+and far from the threshold elsewhere, so the rational comparison decides the same -/
+def phiIsOne (phi : Rat) : Bool := ratAbs (phi - 1) < 1 / ((2 ^ 52 : Nat) : Rat)
+
+inductive Res where
+  | won | lost | panic
+  deriving DecidableEq, Repr
+
+/-- `is_lottery_won(phi_f, ev, stake, total_stake)`; `lnBits` is the double `(1.0 - phi_f).ln()`
+as computed by the Rust side (libm is not modelled). -/
+def won (phiBits lnBits ev stake total : Nat) : Res :=
+  match f64ToRat phiBits with
+  | none => .panic
+  | some phi =>
+    if phiIsOne phi then .won
+    else
+      match f64ToRat lnBits with
+      | none => .panic                     -- `expect("Only fails if the float is infinite or NaN.")`
+      | some c =>
+        if total = 0 then .panic           -- Ratio with a zero denominator
+        else
+          let q : Rat := (evMax : Rat) / ((evMax - ev : Nat) : Rat)
+          let w : Rat := (stake : Rat) / (total : Rat)
+          let x : Rat := -(w * c)
+          if taylor 1000 q x then .won else .lost
+
+/-- high-precision reference for `exp x`, `x ≥ 0`: fixed point with `P` fractional bits, all
+roundings downward; returns a lower bound `lo` and `hi = lo + slack`. Used only as a test oracle
+for the S obligation (the theorems do not depend on it). -/
+def expRef (x : Rat) (P N : Nat) : Rat × Rat :=
+  let one : Nat := 2 ^ P
+  let xs : Nat := (x * (one : Rat)).floor.toNat
+  let rec go (j : Nat) (fuel : Nat) (term sum : Nat) : Nat :=
+    match fuel with
+    | 0 => sum
+    | f + 1 =>
+      let term' := term * xs / (one * (j + 1))
+      go (j + 1) f term' (sum + term')
+  let s := go 0 N one one
+  let lo : Rat := (s : Rat) / (one : Rat)
+  -- slack: rounding (≤ (N+2)^2 ulps, scaled by the magnitude) + tail (≤ last term × 2 when N ≥ 2x)
+  let hi : Rat := lo + lo / ((2 ^ (P / 2) : Nat) : Rat)
+  (lo, hi)
+
+end Lottery
